@@ -344,10 +344,12 @@ Fixpoint retrieve_loop (d : doc) (steps idx : nat) : res (list N) :=
 
 Definition doc_retrieve (d : doc) (record : nat) : res (list N) :=
   do start <- ok_or (bv_select (d_rb d) record);
-  do limit <- match bv_select (d_rb d) (record + 1) with
-              | Some l => Ok l
-              | None => doc_len d
-              end;
+  (* `.select(record.0 + 1).unwrap_or(self.len())`: the argument self.len() is evaluated first *)
+  do len <- doc_len d;
+  let limit := match bv_select (d_rb d) (record + 1) with
+               | Some l => l
+               | None => len
+               end in
   if limit <? start then Err
   else do idx <- d_isa d start;
        retrieve_loop d (limit - start) idx.
